@@ -303,3 +303,691 @@ def regen(ml):
         except (Refuse, SyntaxError, OSError) as e:
             refusal = (refusal + "; " if refusal else "") + "S(HaddExpr): " + str(e)
     return tables, extraction, refusal
+
+
+# =================================================================== independent chemistry (oracle side; NOT from molli)
+GROUPS = {13: "B Al Ga In Tl Nh", 14: "C Si Ge Sn Pb Fl", 15: "N P As Sb Bi Mc", 16: "O S Se Te Po Lv",
+          17: "F Cl Br I At Ts", 18: "He Ne Ar Kr Xe Rn Og"}
+GROUP_OF = {s: g for g, ss in GROUPS.items() for s in ss.split()}
+# single-bond covalent radii (Pyykko & Atsumi 2009), Angstrom
+RCOV = {"H": 0.32, "B": 0.85, "C": 0.75, "N": 0.71, "O": 0.63, "F": 0.64, "Al": 1.26, "Si": 1.16, "P": 1.11, "S": 1.03,
+        "Cl": 0.99, "Ga": 1.24, "Ge": 1.21, "As": 1.21, "Se": 1.16, "Br": 1.14, "I": 1.33, "Sn": 1.40, "Sb": 1.40, "Te": 1.36}
+STD_ORDER = {"Single": 1, "Double": 2, "Triple": 3, "Quadruple": 4, "Quintuple": 5, "Sextuple": 6, "Aromatic": Fr(3, 2), "Amide": 1,
+             "Dummy": 0, "NotConnected": 0, "Ligand": 0, "H_Acceptor": 0, "H_Donor": 1, "Unknown": 0}
+REL_TOL = 1e-4            # |h - a| against the sum of covalent radii (the two-hydrogen branch is 5.3e-5 long, C16_dist2)
+
+
+def expected_count(sym, fc, spin, hint, orders):
+    """The count the property states; None when the atom is outside groups 13-18 and carries no hint."""
+    if hint is not None:
+        return int(hint)
+    g = GROUP_OF.get(sym)
+    if g is None:
+        return None
+    ve = g - 10
+    bv = sum((Fr(o) for o in orders), Fr(0))
+    return max(0, 4 - abs(4 - (ve - fc - abs(spin))) - math.ceil(bv))
+
+
+# =================================================================== exact arithmetic (witnesses for the model)
+def qsqrt(q, bits=66):
+    """Rational n > 0 with |n^2 - q| <= q 2^-60 (checked again inside Coq by sqrt_witness_ok)."""
+    q = Fr(q)
+    assert q > 0
+    rn, rd = math.isqrt(q.numerator), math.isqrt(q.denominator)
+    if rn * rn == q.numerator and rd * rd == q.denominator:
+        return Fr(rn, rd)
+    k = bits + max(0, (q.numerator.bit_length() - q.denominator.bit_length()) // 2 + 2)
+    m = math.isqrt(((1 << (2 * k)) * q.denominator) // q.numerator)
+    r = Fr(1 << k, m)
+    assert abs(r * r - q) <= q / (1 << 60), (q, r)
+    return r
+
+
+def vsub(a, b): return [x - y for x, y in zip(a, b)]
+def vdot(a, b): return sum(x * y for x, y in zip(a, b))
+def vcross(a, b): return [a[1] * b[2] - a[2] * b[1], a[2] * b[0] - a[0] * b[2], a[0] * b[1] - a[1] * b[0]]
+def vmean(vs): return [sum(c) / len(vs) for c in zip(*vs)]
+
+
+def least_axis(u):
+    ab = [abs(x) for x in u]
+    i = 0 if (ab[0] <= ab[1] and ab[0] <= ab[2]) else (1 if ab[1] <= ab[2] else 2)
+    return [Fr(int(j == i)) for j in range(3)]
+
+
+def witness(a, nb, k, nrm, tet0):
+    """Witnesses for one target: a, nb exact coordinates, k hydrogens, nrm the unit normal observed from mean_plane
+    (three neighbours).  Returns dict(ok, n, nz, ov, nrm, degenerate=<why>)."""
+    one, zero = Fr(1), Fr(0)
+    w = {"ok": True, "n": one, "nz": one, "ov": [one, zero, zero], "nrm": nrm or [zero, zero, one], "why": None, "planar": False}
+    if k <= 0:
+        return w
+    if len(nb) == 0:
+        vec = [one, zero, zero]
+    elif len(nb) == 3:
+        al = vdot(w["nrm"], vsub(vmean(nb), a))
+        if abs(abs(al) - Fr(1, 20)) < Fr(1, 10**6):
+            return dict(w, ok=False, why="align at the 0.05 threshold")
+        w["planar"] = abs(al) <= Fr(1, 20)
+        vec = list(w["nrm"]) if w["planar"] else [al * x for x in w["nrm"]]
+    else:
+        vec = vmean([vsub(p, a) for p in nb])
+    n2 = vdot(vec, vec)
+    if n2 < Fr(1, 10**12):
+        return dict(w, ok=False, why="neighbours' centroid coincides with the atom")
+    w["n"] = qsqrt(n2)
+    u = [x / w["n"] for x in vec]
+    if k == 2:
+        z = vcross(vsub(nb[0], a), vsub(nb[1], a)) if len(nb) == 2 else vcross(u, least_axis(u))
+        z2 = vdot(z, z)
+        if z2 < Fr(1, 10**12):
+            return dict(w, ok=False, why="two neighbours collinear with the atom")
+        w["nz"] = qsqrt(z2)
+    if k in (3, 4):
+        c = vdot(tet0, u)
+        tol = Fr(1, 10**8)
+        if abs(c - (-1 + tol)) < Fr(1, 10**10):
+            return dict(w, ok=False, why="rotation at the antiparallel threshold")
+        if c <= -1 + tol:
+            rv = least_axis(u)
+            d = vdot(rv, u)
+            ort = [r - x * d for r, x in zip(rv, u)]
+            no = qsqrt(vdot(ort, ort))
+            w["ov"] = [x / no for x in ort]
+    return w
+
+
+# =================================================================== building and observing molecules
+def build(ml, spec):
+    """spec -> (molecule, atoms list).  Random specs are built atom by atom; CDXML specs are parsed from the bundled file."""
+    from molli.chem import Molecule, Structure, Atom, Bond, BondType, AtomType
+    if "cdxml" in spec:
+        cf = ml.CDXMLFile(os.path.join(os.path.dirname(ml.files.__file__), spec["cdxml"]))
+        m = cf[spec["key"]]
+        return m
+    m = (Molecule if spec["cls"] == "Molecule" else Structure)()
+    ats = []
+    for sym, fc, spin, hint, aty, xyz in spec["atoms"]:
+        a = Atom(sym, formal_charge=fc, formal_spin=spin, atype=AtomType[aty])
+        if hint is not None:
+            a.attrib[HINT] = hint
+        m.add_atom(a, [float(x) for x in xyz])
+        ats.append(a)
+    for i, j, bt, fo in spec["bonds"]:
+        m.append_bond(Bond(ats[i], ats[j], btype=BondType[bt], f_order=float(fo)))
+    return m
+
+
+def snap_atom(a):
+    at = {k: copy.deepcopy(v) for k, v in a.attrib.items() if k != HINT}
+    return (id(a), int(a.element), a.isotope, a.label, int(a.atype), int(a.stereo), int(a.geom), a.formal_charge, a.formal_spin,
+            json.dumps(at, sort_keys=True, default=repr))
+
+
+def snap_bond(b):
+    return (id(b), id(b.a1), id(b.a2), int(b.btype), int(b.stereo), float(b.f_order), b.label,
+            json.dumps(b.attrib, sort_keys=True, default=repr))
+
+
+def snapshot(m):
+    import numpy as np
+    s = {"atoms": [snap_atom(a) for a in m.atoms], "bonds": [snap_bond(b) for b in m.bonds],
+         "coords": np.array(m.coords, dtype=float).copy(), "objs": list(m.atoms), "bobjs": list(m.bonds),
+         "hints": [a.attrib.get(HINT) for a in m.atoms],
+         "mol": (getattr(m, "name", None), json.dumps(getattr(m, "attrib", {}), sort_keys=True, default=repr))}
+    if hasattr(m, "atomic_charges"):
+        s["q"] = np.array(m.atomic_charges, dtype=float).copy()
+        s["mol"] += (m.charge, m.mult)
+    return s
+
+
+def hatom_term(el, fc, spin, hint, aty):
+    return f"(mkHA {cq_N(el)} {cq_Z(fc)} {cq_Z(spin)} {cq_opt(hint, cq_Z)} {cq_N(aty)})"
+
+
+def hbond_term(i, j, bt, fo):
+    return f"(mkHB {cq_nat(i)} {cq_nat(j)} {cq_N(bt)} {cq_Q(Fr(float(fo)))})"
+
+
+def vterm(v):
+    return "(" + ", ".join(cq_Q(Fr(x)) for x in v) + ")"
+
+
+def wit_term(w):
+    return f"(mkWit {cq_bool(w['ok'])} {cq_Q(w['n'])} {cq_Q(w['nz'])} {vterm(w['ov'])} {vterm(w['nrm'])})"
+
+
+def observe(ml, spec):
+    """Run the implementation on the molecule described by spec.  Returns a dict with everything the model
+    comparison (term) and the oracle need; 'error' when building or the call raised."""
+    import numpy as np
+    from molli.math import mean_plane
+    from molli.chem import AtomType
+    from molli.math.polyhedra import TETRAHEDRON
+    try:
+        m = build(ml, spec)
+    except Exception as e:
+        return {"error": f"build: {type(e).__name__}: {e}"}
+    before = snapshot(m)
+    n0, nb0 = len(before["atoms"]), len(before["bonds"])
+    pos = {id(a): i for i, a in enumerate(m.atoms)}
+    tg = spec.get("targets")
+    raised = None
+    with np.errstate(all="ignore"):
+        try:
+            if tg is None:
+                m.add_implicit_hydrogens()
+            else:
+                m.add_implicit_hydrogens(*[m.atoms[i] for i in tg])
+        except Exception as e:
+            raised = f"{type(e).__name__}: {e}"
+    after = snapshot(m)
+    out = {"m": m, "before": before, "after": after, "raised": raised, "n0": n0, "nb0": nb0, "pos": pos}
+    # ---- chemistry-level description of the molecule before the call
+    atoms0 = [(s[1], s[7], s[8], h, s[4]) for s, h in zip(before["atoms"], before["hints"])]
+    try:
+        bonds0 = [(pos[s[1]], pos[s[2]], s[3], s[5]) for s in before["bonds"]]
+    except KeyError:
+        return dict(out, error="a bond of the input joins an atom that is not in the molecule")
+    X0 = [[Fr(float(x)) for x in r] for r in before["coords"]]
+    out.update(atoms0=atoms0, bonds0=bonds0, X0=X0)
+    return out
+
+
+def sym_of(ml, z):
+    from molli.chem import Element
+    return Element(z).symbol
+
+
+def analyse(ml, spec, ob):
+    """Independent per-target analysis (expected counts, neighbours, witnesses).  Uses only the molecule BEFORE."""
+    import numpy as np
+    from molli.math import mean_plane
+    from molli.chem import BondType, AtomType
+    from molli.math.polyhedra import TETRAHEDRON
+    atoms0, bonds0, X0 = ob["atoms0"], ob["bonds0"], ob["X0"]
+    cc = int(AtomType.CoordinationCenter)
+    tet0 = [Fr(float(x)) for x in TETRAHEDRON[0]]
+    tg = spec.get("targets")
+    if tg is None:
+        tg = [i for i, a in enumerate(atoms0) if GROUP_OF.get(sym_of(ml, a[0])) in (13, 14, 15, 16)]
+    info = []
+    for t in tg:
+        el, fc, spin, hint, aty = atoms0[t]
+        inc = [(i, j, bt, fo) for (i, j, bt, fo) in bonds0 if i == t or j == t]
+        orders = [Fr(float(fo)) if BondType(bt).name == "FractionalOrder" else STD_ORDER[BondType(bt).name] for (_, _, bt, fo) in inc]
+        k = expected_count(sym_of(ml, el), fc, spin, hint, orders)
+        allnb = [(j if i == t else i) for (i, j, _, _) in inc]
+        nb = [j for j in allnb if atoms0[j][4] != cc]
+        nrm = None
+        if len(nb) == 3:
+            with np.errstate(all="ignore"):
+                nrm = [Fr(float(x)) for x in mean_plane(np.array([[float(c) for c in X0[j]] for j in nb]))]
+        w = witness(X0[t], [X0[j] for j in nb], k if k is not None else 0, nrm, tet0)
+        info.append({"t": t, "k": k, "nb": nb, "allnb": allnb, "w": w, "orders": orders, "hint": hint})
+    return tg, info
+
+
+def case_term(ml, spec, ob, tg, info):
+    after, n0 = ob["after"], ob["n0"]
+    m = ob["m"]
+    pos = {id(a): i for i, a in enumerate(m.atoms)}
+    atoms1 = [(s[1], s[7], s[8], h, s[4]) for s, h in zip(after["atoms"], after["hints"])]
+    try:
+        bonds1 = [(pos[s[1]], pos[s[2]], s[3], s[5]) for s in after["bonds"]]
+    except KeyError:
+        return None
+    X1 = []
+    for r in after["coords"]:
+        X1.append([Fr(float(x)) if math.isfinite(float(x)) else Fr(0) for x in r])
+    targets = "None" if spec.get("targets") is None else "(Some " + cq_list(cq_nat(i) for i in spec["targets"]) + ")"
+    return ("(CMol " + cq_list(hatom_term(*a) for a in ob["atoms0"]) + "\n  " + cq_list(hbond_term(*b) for b in ob["bonds0"]) + "\n  "
+            + cq_list(vterm(x) for x in ob["X0"]) + "\n  " + targets + " " + cq_list(wit_term(i["w"]) for i in info) + "\n  "
+            + cq_list(hatom_term(*a) for a in atoms1) + "\n  " + cq_list(hbond_term(*b) for b in bonds1) + "\n  "
+            + cq_list(vterm(x) for x in X1) + ")")
+
+
+# =================================================================== the oracle: the property judged on the implementation alone
+def judge(ml, spec, ob, tg, info):
+    import numpy as np
+    out = []
+    b, a, n0, nb0 = ob["before"], ob["after"], ob["n0"], ob["nb0"]
+    m = ob["m"]
+    if ob["raised"]:
+        out.append(("C16:raised", f"add_implicit_hydrogens raised {ob['raised']}"))
+        return out
+    # ---- nothing but new hydrogens
+    if a["atoms"][:n0] != b["atoms"]:
+        out.append(("C16:frame:atoms", "an existing atom was replaced or modified (element, label, type, charge, spin or attributes)"))
+    if a["bonds"][:nb0] != b["bonds"]:
+        out.append(("C16:frame:bonds", "an existing bond was replaced, reordered or modified"))
+    if a["coords"].shape != (len(a["atoms"]), 3) or not np.array_equal(a["coords"][:n0], b["coords"]):
+        out.append(("C16:frame:coords", "coordinates of existing atoms changed (or the coordinate array lost its shape)"))
+    if "q" in b:
+        if a["q"].shape != (len(a["atoms"]),) or not np.array_equal(a["q"][:n0], b["q"]):
+            out.append(("C16:frame:charges", "partial charges of existing atoms changed (or the charge array lost its shape)"))
+        elif np.any(a["q"][n0:] != 0.0):
+            out.append(("C16:new-h:charge", "a new hydrogen has a non-zero partial charge"))
+    if a["mol"] != b["mol"]:
+        out.append(("C16:frame:molecule", f"molecule-level data changed: {b['mol']} -> {a['mol']}"))
+    tset = set(tg)
+    for i, (h0, h1) in enumerate(zip(b["hints"], a["hints"][:n0])):
+        if i not in tset and h0 != h1:
+            out.append(("C16:frame:hint", f"the hint of atom {i}, which was not a target, changed"))
+    # ---- the new atoms are hydrogens, each bonded once, by a single bond, to an old atom
+    from molli.chem import Element, BondType, AtomType
+    new_atoms, new_bonds = m.atoms[n0:], m.bonds[nb0:]
+    pos = {id(x): i for i, x in enumerate(m.atoms)}
+    per = {}
+    hb = {}
+    for bd in new_bonds:
+        i1, i2 = pos.get(id(bd.a1)), pos.get(id(bd.a2))
+        if i1 is None or i2 is None or (i1 < n0) == (i2 < n0):
+            out.append(("C16:new-bond:ends", "a new bond does not join an existing atom and a new hydrogen"))
+            continue
+        old, new = (i1, i2) if i1 < n0 else (i2, i1)
+        if bd.btype != BondType.Single or bd.order != 1.0:
+            out.append(("C16:new-bond:order", f"the bond to a new hydrogen is {bd.btype.name}"))
+        hb.setdefault(new, []).append(old)
+        per.setdefault(old, []).append(new)
+    for j, x in enumerate(new_atoms):
+        j += n0
+        if x.element != Element.H or x.formal_charge != 0 or x.formal_spin != 0 or HINT in x.attrib:
+            out.append(("C16:new-atom:not-plain-H", f"new atom {j} is {x.element.name} charge {x.formal_charge} spin {x.formal_spin}"))
+        if len(hb.get(j, [])) != 1:
+            out.append(("C16:new-h:bond-count", f"new hydrogen {j} has {len(hb.get(j, []))} bonds"))
+    # ---- per-atom counts against the independent valence calculation
+    by_t = {i["t"]: i for i in info}
+    for old in sorted(set(per) | tset):
+        got = len(per.get(old, []))
+        if old not in by_t:
+            if got:
+                out.append(("C16:count:bystander", f"atom {old} ({m.atoms[old].element.name}) is not a target but received {got} hydrogens"))
+            continue
+        want = by_t[old]["k"]
+        if want is None:
+            continue
+        if got != max(want, 0):
+            src = "hint" if by_t[old]["hint"] is not None else "formula"
+            out.append((f"C16:count:{src}:want={max(want, 0)}:got={got}",
+                        f"atom {old} ({m.atoms[old].element.name}, charge {m.atoms[old].formal_charge}, spin {m.atoms[old].formal_spin}, "
+                        f"bond orders {[str(o) for o in by_t[old]['orders']]}) should receive {want} hydrogens ({src}), received {got}"))
+    # ---- geometry
+    X = a["coords"]
+    for old, hs in per.items():
+        if old not in by_t:
+            continue
+        it = by_t[old]
+        sym = m.atoms[old].element.symbol
+        L = RCOV.get(sym, None)
+        L = (L + RCOV["H"]) if L is not None else float(m.atoms[old].element.cov_radius_1) + RCOV["H"]
+        nbx = [b["coords"][j] for j in it["allnb"]]
+        cent = np.mean(nbx, axis=0) if nbx else None
+        has_cc = len(it["nb"]) != len(it["allnb"])
+        for j in hs:
+            h = X[j]
+            tag = f"k={len(hs)}:nn={len(it['nb'])}"
+            if not np.all(np.isfinite(h)):
+                if it["w"]["ok"]:
+                    out.append((f"C16:geom:not-finite:{tag}", f"hydrogen {j} on atom {old} ({sym}) has coordinates {h.tolist()}"))
+                else:
+                    out.append((f"C16:geom:not-finite:degenerate", f"hydrogen {j} on atom {old}: {h.tolist()} ({it['w']['why']})"))
+                continue
+            d = float(np.linalg.norm(h - X[old]))
+            if abs(d - L) > REL_TOL * L:
+                out.append((f"C16:geom:distance:{tag}", f"hydrogen {j} is {d:.6f} A from atom {old} ({sym}); sum of covalent radii {L:.4f}"))
+            # judged where a tetrahedral arrangement exists at all (neighbours + hydrogens <= 4)
+            if cent is not None and it["w"]["ok"] and not it["w"]["planar"] and not has_cc and len(hs) + len(it["allnb"]) <= 4:
+                dp = float(np.dot(h - X[old], cent - X[old]))
+                if not dp < 0:
+                    out.append((f"C16:geom:towards-neighbours:{tag}", f"hydrogen {j} on atom {old} ({sym}) points towards the centroid of "
+                                f"the existing neighbours (dot product {dp:.4f})"))
+    # ---- new hydrogens do not coincide with each other
+    return out
+
+
+def judge_idempotent(ml, ob):
+    """On a hint-free molecule a second call adds nothing (and changes nothing)."""
+    import numpy as np
+    m = ob["m"]
+    s1 = snapshot(m)
+    with np.errstate(all="ignore"):
+        try:
+            m.add_implicit_hydrogens()
+        except Exception as e:
+            return [("C16:second-call:raised", f"the second call raised {type(e).__name__}: {e}")]
+    s2 = snapshot(m)
+    if len(s2["atoms"]) != len(s1["atoms"]) or len(s2["bonds"]) != len(s1["bonds"]):
+        return [("C16:second-call:adds", f"a second call added {len(s2['atoms']) - len(s1['atoms'])} atoms / "
+                 f"{len(s2['bonds']) - len(s1['bonds'])} bonds")]
+    if s2["atoms"] != s1["atoms"] or s2["bonds"] != s1["bonds"] or not np.array_equal(s1["coords"], s2["coords"], equal_nan=True):
+        return [("C16:second-call:changes", "a second call modified the molecule")]
+    return []
+
+
+# =================================================================== generators
+MAIN = ["B", "C", "C", "C", "C", "N", "N", "O", "O", "Si", "P", "S"]
+BYST = ["F", "Cl", "Br", "I", "H", "H", "Li", "Na", "Mg", "Fe", "Pd", "Zn", "Cu"]
+DIRS = None
+
+
+def directions():
+    """Rational bond vectors: components in eighths, length between 1.0 and 1.7; axis-parallel ones included."""
+    global DIRS
+    if DIRS is None:
+        out = []
+        rng = range(-13, 14)
+        for x in rng:
+            for y in rng:
+                for z in rng:
+                    n2 = x * x + y * y + z * z
+                    if 64 <= n2 <= 185:
+                        out.append((Fr(x, 8), Fr(y, 8), Fr(z, 8)))
+        axis = [v for v in out if sum(1 for c in v if c == 0) == 2]
+        DIRS = (out, axis)
+    return DIRS
+
+
+def nondegenerate(X, i, nbs):
+    """Is the neighbourhood of atom i (indices nbs) non-degenerate in the sense of the property?"""
+    a = X[i]
+    if not nbs:
+        return True
+    rs = [vsub(X[j], a) for j in nbs]
+    c = vmean(rs)
+    if vdot(c, c) < Fr(1, 25):
+        return False
+    if len(nbs) == 2:
+        z = vcross(rs[0], rs[1])
+        if vdot(z, z) < Fr(1, 25):
+            return False
+    if len(nbs) == 3:
+        nrm = vcross(vsub(rs[1], rs[0]), vsub(rs[2], rs[0]))
+        n2 = vdot(nrm, nrm)
+        if n2 < Fr(1, 25):
+            return False
+        al2 = vdot(nrm, c) ** 2 / n2               # align^2
+        if al2 < Fr(1, 100):                        # |align| < 0.1: planar or close to the 0.05 threshold
+            return False
+    return True
+
+
+def gen_spec(rng, planar=False):
+    """Random organic-like molecule: a tree (plus the odd ring closure) of 1..9 atoms, main-group atoms with at most
+    three neighbours in non-degenerate geometry, exact dyadic coordinates."""
+    alld, axis = directions()
+    n = rng.choice([1, 1, 2, 2, 3, 3, 4, 5, 6, 7, 8, 9])
+    X = [tuple(Fr(rng.randint(-16, 16), 8) for _ in range(3))]
+    syms = [rng.choice(MAIN)]
+    nbr = {0: []}
+    bonds = []
+    tries = 0
+    while len(X) < n and tries < 400:
+        tries += 1
+        p = rng.randrange(len(X))
+        if len(nbr[p]) >= 3:
+            continue
+        d = rng.choice(axis) if rng.random() < 0.25 else rng.choice(alld)
+        q = tuple(a + b for a, b in zip(X[p], d))
+        if any(vdot(vsub(q, x), vsub(q, x)) < Fr(81, 100) for x in X):
+            continue
+        k = len(X)
+        if not nondegenerate(X + [q], p, nbr[p] + [k]):
+            continue
+        X.append(q)
+        syms.append(rng.choice(MAIN) if rng.random() < 0.7 else rng.choice(BYST))
+        nbr[p].append(k)
+        nbr[k] = [p]
+        bonds.append([p, k])
+    # a ring closure now and then
+    if len(X) >= 4 and rng.random() < 0.25:
+        for _ in range(20):
+            i, j = rng.sample(range(len(X)), 2)
+            if j in nbr[i] or len(nbr[i]) >= 3 or len(nbr[j]) >= 3:
+                continue
+            if nondegenerate(X, i, nbr[i] + [j]) and nondegenerate(X, j, nbr[j] + [i]):
+                nbr[i].append(j); nbr[j].append(i); bonds.append([i, j])
+                break
+    main = lambda s: s in MAIN
+    bl = []
+    for i, j in bonds:
+        r = rng.random()
+        if main(syms[i]) and main(syms[j]):
+            bt = ("Single" if r < 0.5 else "Double" if r < 0.68 else "Triple" if r < 0.76 else "Aromatic" if r < 0.9
+                  else "FractionalOrder" if r < 0.96 else "Amide")
+        elif main(syms[i]) or main(syms[j]):
+            bt = "Single" if r < 0.85 else "Double" if r < 0.93 else "FractionalOrder"
+        else:
+            bt = rng.choice(["Single", "Dummy", "Ligand", "NotConnected", "H_Acceptor", "H_Donor", "Unknown", "Quadruple"])
+        # fractional orders below 1 (three half-bonds and two hydrogens on one carbon) are outside the property's quantifier
+        fo = rng.choice([1.0, 1.25, 1.5, 1.75, 2.5] if (main(syms[i]) or main(syms[j])) else [0.5, 1.5]) if bt == "FractionalOrder" else 1.0
+        bl.append([i, j, bt, fo])
+    hinted = rng.random() < 0.2
+    atoms = []
+    for s, x in zip(syms, X):
+        fc = rng.choice([0] * 8 + [1, -1]) if main(s) else 0
+        spin = rng.choice([0] * 10 + [1, 1, 2]) if main(s) else 0
+        # a drawing hint that fits the valence shell: neighbours + hydrogens <= 4
+        hint = rng.choice([h for h in (0, 0, 1, 2, 3, 4) if h + len(nbr[len(atoms)]) <= 4]) if (hinted and rng.random() < 0.5) else None
+        aty = "CoordinationCenter" if (s in ("Fe", "Pd", "Zn", "Cu") and rng.random() < 0.3) else rng.choice(["Regular", "Regular", "Aromatic", "Unknown"])
+        atoms.append([s, fc, spin, hint, aty, [float(c) for c in x]])
+    spec = {"cls": rng.choice(["Molecule", "Structure"]), "atoms": atoms, "bonds": bl, "targets": None}
+    if rng.random() < 0.15:
+        cand = [i for i, a in enumerate(atoms) if GROUP_OF.get(a[0]) is not None or a[3] is not None]
+        rng.shuffle(cand)
+        spec["targets"] = cand[:rng.randint(0, min(3, len(cand)))]
+        if not spec["targets"]:
+            spec["targets"] = None
+    return spec
+
+
+def planar_spec(rng):
+    """A main-group atom in the plane of its three neighbours (the |align| <= 0.05 branch): outside the
+    'non-degenerate' quantifier for the direction, inside it for everything else."""
+    c = rng.choice(["C", "N", "B", "Si"])
+    X = [[0, 0, 0], [1.5, 0, 0], [-0.75, 1.25, 0], [-0.75, -1.25, 0]]
+    perm = rng.sample(range(3), 3)
+    X = [[x[perm[0]], x[perm[1]], x[perm[2]]] for x in X]
+    atoms = [[c, 0, 0, None, "Regular", X[0]]] + [[rng.choice(["C", "F", "Cl"]), 0, 0, None, "Regular", x] for x in X[1:]]
+    return {"cls": "Molecule", "atoms": atoms, "bonds": [[0, 1, "Single", 1.0], [0, 2, "Single", 1.0], [0, 3, "Single", 1.0]], "targets": None}
+
+
+FIXED = [
+    # the three repaired defects, and small named molecules
+    ("methane", {"cls": "Molecule", "atoms": [["C", 0, 0, None, "Regular", [0, 0, 0]]], "bonds": [], "targets": None}),
+    ("water", {"cls": "Molecule", "atoms": [["O", 0, 0, None, "Regular", [0.5, 0.25, -1]]], "bonds": [], "targets": None}),
+    ("ammonia", {"cls": "Structure", "atoms": [["N", 0, 0, None, "Regular", [0, 0, 0]]], "bonds": [], "targets": None}),
+    ("borane", {"cls": "Structure", "atoms": [["B", 0, 0, None, "Regular", [0, 0, 0]]], "bonds": [], "targets": None}),
+    ("hydroxide", {"cls": "Molecule", "atoms": [["O", -1, 0, None, "Regular", [0, 0, 0]]], "bonds": [], "targets": None}),
+    ("silane", {"cls": "Molecule", "atoms": [["Si", 0, 0, None, "Regular", [1, 2, 3]]], "bonds": [], "targets": None}),
+    ("HF-explicit", {"cls": "Molecule", "atoms": [["F", 0, 0, None, "Regular", [0, 0, 0]]], "bonds": [], "targets": [0]}),
+    ("ethene-z", {"cls": "Molecule", "atoms": [["C", 0, 0, None, "Regular", [0, 0, 0]], ["C", 0, 0, None, "Regular", [0, 0, 1.25]]],
+                  "bonds": [[0, 1, "Double", 1.0]], "targets": None}),
+    ("ethene-x", {"cls": "Molecule", "atoms": [["C", 0, 0, None, "Regular", [0, 0, 0]], ["C", 0, 0, None, "Regular", [1.25, 0, 0]]],
+                  "bonds": [[0, 1, "Double", 1.0]], "targets": None}),
+    ("ethane-z", {"cls": "Molecule", "atoms": [["C", 0, 0, None, "Regular", [0, 0, 0]], ["C", 0, 0, None, "Regular", [0, 0, 1.5]]],
+                  "bonds": [[0, 1, "Single", 1.0]], "targets": None}),
+    ("ethane-y", {"cls": "Structure", "atoms": [["C", 0, 0, None, "Regular", [0, 0, 0]], ["C", 0, 0, None, "Regular", [0, -1.5, 0]]],
+                  "bonds": [[0, 1, "Single", 1.0]], "targets": None}),
+    ("hinted-methyl", {"cls": "Molecule", "atoms": [["C", 0, 0, 3, "Regular", [0, 0, 0]], ["Cl", 0, 0, None, "Regular", [1.5, 0.5, 0.25]]],
+                       "bonds": [[0, 1, "Single", 1.0]], "targets": None}),
+    ("hint-zero", {"cls": "Molecule", "atoms": [["C", 0, 0, 0, "Regular", [0, 0, 0]], ["C", 0, 0, None, "Regular", [1.5, 0.5, 0.25]]],
+                   "bonds": [[0, 1, "Single", 1.0]], "targets": None}),
+]
+
+
+def cdxml_specs(ml):
+    d = os.path.dirname(ml.files.__file__)
+    out = []
+    for f in sorted(glob.glob(os.path.join(d, "*.cdxml"))):
+        try:
+            cf = ml.CDXMLFile(f)
+            keys = list(cf.keys())
+        except Exception:
+            continue
+        for k in keys:
+            out.append({"cdxml": os.path.basename(f), "key": k})
+    return out
+
+
+# =================================================================== run / replay
+HEADER = ("From Coq Require Import List ZArith NArith QArith.\nImport ListNotations.\n"
+          "From Molli Require Import Common.Field3 Model.Hadd.\n")
+
+
+def process(ml, spec, idem=True):
+    """One molecule: observe, analyse, judge.  Returns (term or None, violations, stats dict)."""
+    ob = observe(ml, spec)
+    if "error" in ob:
+        return None, [("C16:input", ob["error"])] if "cdxml" not in spec else [], {"skipped": ob["error"]}
+    tg, info = analyse(ml, spec, ob)
+    viol = judge(ml, spec, ob, tg, info)
+    stats = {"targets": len(tg), "branches": [f"k={max(i['k'] or 0, 0)}:nn={len(i['nb'])}" + (":planar" if i["w"]["planar"] else "")
+                                              + ("" if i["w"]["ok"] else ":degenerate") for i in info],
+             "hinted": any(h is not None for h in ob["before"]["hints"]), "added": len(ob["after"]["atoms"]) - ob["n0"]}
+    term = None if ob["raised"] else case_term(ml, spec, ob, tg, info)
+    if idem and not ob["raised"] and not stats["hinted"] and spec.get("targets") is None:
+        viol += judge_idempotent(ml, ob)
+        stats["idem"] = True
+    return term, viol, stats
+
+
+def all_specs(ctx, ml):
+    rng = ctx.rng
+    n_rand = 420 if not ctx.thorough else 6000
+    items = [("fixed:" + nm, sp) for nm, sp in FIXED]
+    items += [("planar", planar_spec(rng)) for _ in range(6 if not ctx.thorough else 40)]
+    items += [("random", gen_spec(rng)) for _ in range(n_rand)]
+    items += [("cdxml", sp) for sp in cdxml_specs(ml)]
+    return items
+
+
+def search_count_witness(ml, rep, tables):
+    """The S/T obligations broke: look for an atom on which the implementation's count differs from the property's
+    (small exhaustive family: element x charge x spin x bond pattern on a lone centre with dummy-free neighbours)."""
+    found = False
+    pats = [[], ["Single"], ["Double"], ["Triple"], ["Aromatic", "Aromatic"], ["Single", "Single"], ["Single", "Double"],
+            ["Single", "Single", "Single"], ["Aromatic", "Aromatic", "Single"], ["FractionalOrder"], ["Single", "FractionalOrder"]]
+    pos = [[1.5, 0.25, 0.5], [-0.75, 1.25, 0.5], [-0.5, -1.25, 0.75]]
+    for sym in ["B", "C", "N", "O", "Si", "P", "S", "F", "Cl", "Fe", "H"]:
+        for fc in (-1, 0, 1):
+            for spin in (0, 1, 2):
+                for pat in pats:
+                    atoms = [[sym, fc, spin, None, "Regular", [0, 0, 0]]] + [["Cl", 0, 0, None, "Regular", p] for p in pos[:len(pat)]]
+                    bonds = [[0, i + 1, bt, 1.5 if bt == "FractionalOrder" else 1.0] for i, bt in enumerate(pat)]
+                    spec = {"cls": "Molecule", "atoms": atoms, "bonds": bonds, "targets": None}
+                    _, viol, _ = process(ml, spec)
+                    for sig, text in viol:
+                        found = True
+                        rep.violate(sig, text, {"kind": "spec", "spec": spec})
+    return found
+
+
+def run(ctx, rep):
+    warnings.simplefilter("ignore")
+    import molli as ml
+    rep.rule = ("a case = one molecule (random organic-like with exact dyadic coordinates, fixed small molecules, every bundled CDXML "
+                "fragment) driven through add_implicit_hydrogens; non-trivial when at least one hydrogen was added and the "
+                "molecule before/after was compared with the model inside Coq; distinct by molecule description")
+    rep.trusted += ["harness/c16.py: T-emitter (tables, default selection observed by running the routine on a lone hinted atom of "
+                    "every element), fail-closed ast extractor of the count expression, generators, float -> exact rational encoding, "
+                    "2^-60 square-root witnesses and observed mean_plane normals (both re-checked inside Coq)",
+                    "CPython/numpy executing molli (IEEE rounding, np.linalg.svd inside mean_plane, np.cross, np.argmin)",
+                    "CDXML parsing itself is NOT verified here (C13): the parsed fragment is the input"]
+    rep.assumptions += ["model vs implementation: atoms/bonds/hints exactly, old coordinate rows bit-identical, new rows within 1e-9",
+                        "oracle: |H - atom| within a relative 1e-4 of the sum of single-bond covalent radii (Pyykko 2009); the two-hydrogen "
+                        "branch is longer by a factor sqrt(0.5736^2 + 0.8192^2) = 1.0000528 (C16_dist2), accepted at this tolerance",
+                        "targets are distinct atoms; explicit targets outside groups 13-18 carry a hint (otherwise valence_electrons raises)",
+                        "'pointing away' is judged when the neighbourhood is non-degenerate (centroid off the atom, two neighbours not "
+                        "collinear, three neighbours not coplanar with the atom: |align| > 0.05) and no CoordinationCenter neighbour is skipped",
+                        "hints are integers in 0..4"]
+    tables, extraction, refusal = regen(ml)
+    ok, out, where = vlib.build_props(ctx, rep, "C16")
+    rep.oblig("T/S-extraction", refusal is None)
+    terms, owners, found = [], [], False
+    items = all_specs(ctx, ml)
+    viol_at = {}
+    for n, (kind, spec) in enumerate(items):
+        term, viol, stats = process(ml, spec)
+        rep.count(kind.split(":")[0])
+        for br in stats.get("branches", []):
+            rep.count("branch:" + br)
+        if stats.get("hinted"):
+            rep.count("hinted-molecule")
+        if stats.get("idem"):
+            rep.count("second-call-checked")
+        for sig, text in viol:
+            found = True
+            viol_at.setdefault(n, []).append(sig)
+            rep.violate(sig, f"[{kind}] {text}", {"kind": "spec", "spec": spec})
+        if term is None:
+            rep.case(key=None)
+            rep.count("not-compared")
+            continue
+        rep.case(key=(json.dumps(spec, sort_keys=True) if stats.get("added") else None),
+                 sample=({"kind": kind, "spec": spec, "branches": stats["branches"]} if n % 61 == 0 else None))
+        terms.append(term)
+        owners.append(n)
+    size = 30 if not ctx.thorough else 120
+    nsh = max(1, -(-len(terms) // size))
+    order = [j for s0 in range(nsh) for j in range(s0, len(terms), nsh)]
+    terms = [terms[j] for j in order]
+    owners = [owners[j] for j in order]
+    size = max(1, -(-len(terms) // nsh))
+    bad = vlib.run_shards(ctx, rep, "c16", HEADER, "check", terms, shard=size, timeout=900, case_type="case")
+    rep.extra["shard_cases"] = len(terms)
+    if bad is None:
+        vlib.broken_obligation(rep, "corr_c16", "a correspondence shard did not compile: " + str(rep.extra.get("shard_errors", ""))[-800:], found)
+    elif bad:
+        unexplained = [owners[b] for b in bad if owners[b] not in viol_at]
+        rep.extra["mismatching_cases"] = [items[owners[b]][1] for b in bad[:6]]
+        if unexplained:
+            more = False
+            for n in unexplained[:10]:
+                for v in neighbourhood(ctx, ml, items[n][1]):
+                    more = True
+                    rep.violate(v.sig, v.what, v.replay)
+            if not more:
+                vlib.broken_obligation(rep, "corr_c16", f"{len(unexplained)} molecule(s) on which model and implementation differ although the "
+                                       f"oracle accepts them, e.g. {json.dumps(items[unexplained[0]][1])[:700]}", found)
+    if refusal or not ok:
+        found = search_count_witness(ml, rep, tables) or found
+        if refusal:
+            vlib.broken_obligation(rep, "C16_extraction", refusal, found)
+        if not ok:
+            vlib.broken_obligation(rep, "C16_props", f"{where}\n{out[-1500:]}", found)
+
+
+def neighbourhood(ctx, ml, spec):
+    """Oracle over variations of a molecule on which model and implementation disagree."""
+    out = []
+    if "cdxml" in spec:
+        return out
+    import random
+    r = random.Random(7)
+    for _ in range(40):
+        s = copy.deepcopy(spec)
+        for a in s["atoms"]:
+            if r.random() < 0.3:
+                a[0] = r.choice(MAIN)
+            if r.random() < 0.2:
+                a[1] = r.choice([-1, 0, 1])
+            a[3] = None
+        for b in s["bonds"]:
+            if r.random() < 0.3:
+                b[2] = r.choice(["Single", "Double", "Aromatic"])
+        _, viol, _ = process(ml, s)
+        out += [vlib.Violation(sig, text, {"kind": "spec", "spec": s}) for sig, text in viol]
+        if out:
+            break
+    return out
+
+
+def replay(ctx, data):
+    warnings.simplefilter("ignore")
+    import molli as ml
+    if data.get("kind") != "spec":
+        return []
+    _, viol, _ = process(ml, data["spec"])
+    return [vlib.Violation(sig, text, data) for sig, text in viol]
